@@ -9,7 +9,7 @@ META = dict(
     level_text='bounded histories of the real HostConnection / HostConnectionPool code driven by real ResponseFutures: every interleaving of send / respond / client timeout / late response / defunct / replacement task / shutdown (and shutdown during a blocking connect, and shutdown at any lock acquire/release inside _replace) is a forked symbolic choice, each path decided by z3; accounting steps of both pool classes from symbolic counter states',
     level_note='task-level schedules plus pre-emption at the blocking connection_factory call; transport, timers, executor are harness fakes; request capacity is made small (2-3 streams) so that capacity limits are reached within the bound',
     technique='symbolic execution (sx proxies, LIA) of the real pool code over solver-enumerated event interleavings + z3 validity per path; inductive accounting steps from symbolic counter states',
-    bounds=dict(quick='<= 3 requests, histories of <= 7 events + drain, stream capacity 2..3, orphan threshold 1..2; borrow/return steps with in_flight, max_request_id in [0, 32767] symbolic',
+    bounds=dict(quick='<= 3 requests, histories of <= 7 events + drain, stream capacity 2..3, orphan threshold 1..2; borrow/return steps with in_flight, max_request_id in [0, 32767] symbolic; v1/v2 pool: 2 connections with 0..3 free ids each, <= 4 borrow/return/shutdown/task events, and the same with one shutdown() by another thread at any boundary of the pool lock (v2-pool-race)',
                 thorough='<= 3 requests, histories of <= 8 events + drain'),
     assumptions=['race jobs: a timer (client-side timeout, speculative execution) may fire on a thread other than the event loop\'s, so it can overlap the handling of a response - Connection.create_timer does not promise otherwise and the driver itself guards _on_timeout with the connection lock; with the bundled reactors timers run on the event-loop thread, for which these schedules are an over-approximation; two responses are never handled at the same time', 'each server answer arrives at most once per stream'],
     stubs=['transport/timers/executor: harness kit', 'protocol codec: identity'],
@@ -53,7 +53,7 @@ def h_borrow_step(V):
     V.check(sx.eq(conn.in_flight, before), 'C12:return-restores-count')
 
 
-def h_v2_pool(V, steps=4):
+def h_v2_pool(V, steps=4, race=False):
     """HostConnectionPool (protocol v1/v2): borrow / return / shutdown accounting"""
     world = W.RFWorld(V, n_hosts=1, protocol_version=2, pool_class=W.HostConnectionPool)
     pool = world.pools[world.hosts[0]]
@@ -64,6 +64,12 @@ def h_v2_pool(V, steps=4):
     base = {c.idx: c.in_flight for c in pool._connections}
     held = []
     nwait = [0]
+    if race:
+        # another thread shuts the pool down at any acquire/release of the pool lock reached while no lock is held
+        # (e.g. while a task is about to open, or has just opened, an additional connection)
+        from harness import kit
+        pre = kit.Preempter(V, None, lambda *a: pool.shutdown(), only_unlocked=True, enabled=lambda: not pool.is_shutdown)
+        pool._lock = kit.SchedLock('pool._lock', pre)
 
     def on_wait(cond, timeout):
         # a borrower is blocked: other threads may return a connection and / or shut the pool down
@@ -97,9 +103,10 @@ def h_v2_pool(V, steps=4):
         e = ev[V.choice('ev%d' % step, len(ev))]
         V.tag('e%d' % step, e)
         if e == 'borrow':
+            was_shut = pool.is_shutdown         # (a shutdown that overlaps the borrow may come too late to refuse it)
             try:
                 conn, rid = pool.borrow_connection(timeout=1.0)
-                V.check(not pool.is_shutdown, 'C12:borrow-after-shutdown-fails')
+                V.check(not (was_shut if race else pool.is_shutdown), 'C12:borrow-after-shutdown-fails')
                 V.check(conn.in_flight <= conn.max_request_id + 1, 'C12:never-beyond-request-capacity')
                 held.append((conn, rid))
             except (W.NoConnectionsAvailable, W.ConnectionException):
@@ -128,7 +135,8 @@ def jobs(tier):
     steps = 8 if th else 7
     o = dict(arith='int', max_seconds=1500 if th else 250)
     js = [Job('borrow-step', 'h_borrow_step', {}, dict(arith='int')),
-          Job('v2-pool', 'h_v2_pool', dict(steps=6 if th else 4), dict(arith='int'))]
+          Job('v2-pool', 'h_v2_pool', dict(steps=6 if th else 4), dict(arith='int')),
+          Job('v2-pool-race', 'h_v2_pool', dict(steps=5 if th else 4, race=True), dict(arith='int'))]
     for cap in range(2):
         for thr in range(2):
             js.append(Job('history-c%d-t%d' % (cap, thr), 'h_history', dict(steps=steps),
